@@ -218,7 +218,7 @@ func genRound2(r *hlib.Run, add func(string, []byte, bool, bool), addLight func(
 	// ---- (1a) systematic sweeps: every length of constant / alternating payloads, every prefix of texts.
 	// Every payload gets the Go round trip in both formats; the ones whose stream ends inside a pending
 	// run also go to the Lean model, the xz tool and the Wuffs decoders, and so does every 97th.
-	maxLen := 2000
+	maxLen := 1200
 	sparse := 23 // of the streams that end with pendingExtra > 0 or low >= 0xFF000000 only, every 23rd goes to the model / external decoders
 	if T {
 		maxLen = 6000
